@@ -118,7 +118,7 @@ def compile_fail(P, ws, ds, accepted, offered):
     shutil.rmtree(cdir, ignore_errors=True)
     os.makedirs(os.path.join(cdir, 'src'))
     open(os.path.join(cdir, 'Cargo.toml'), 'w').write(DEP_TOML % 'cfail')
-    shutil.copy(os.path.join(P.REPO, 'Cargo.lock'), os.path.join(cdir, 'Cargo.lock'))
+    shutil.copy(P.lockfile(), os.path.join(cdir, 'Cargo.lock'))
     open(os.path.join(cdir, 'src', 'main.rs'), 'w').write('\n'.join(lines) + '\n')
     rc, msgs, stderr = _cargo_json(P, ws, cdir, ['check'])
     errs, other = _error_lines(msgs, 'main.rs')
@@ -254,7 +254,7 @@ def const_crate(P, ws, ds, accepted, builders, by_name, seed, tier):
     shutil.rmtree(cdir, ignore_errors=True)
     os.makedirs(os.path.join(cdir, 'src'))
     open(os.path.join(cdir, 'Cargo.toml'), 'w').write(DEP_TOML % 'cconst')
-    shutil.copy(os.path.join(P.REPO, 'Cargo.lock'), os.path.join(cdir, 'Cargo.lock'))
+    shutil.copy(P.lockfile(), os.path.join(cdir, 'Cargo.lock'))
     open(os.path.join(cdir, 'src', 'main.rs'), 'w').write('\n'.join(L) + '\n')
     rc, msgs, stderr = _cargo_json(P, ws, cdir, ['build'])
     mism = []
@@ -334,7 +334,7 @@ def regimes_crate(P, ws, ds, accepted):
         shutil.rmtree(cdir, ignore_errors=True)
         os.makedirs(os.path.join(cdir, 'src'))
         open(os.path.join(cdir, 'Cargo.toml'), 'w').write(NOSTD_TOML % P.REPO)
-        shutil.copy(os.path.join(P.REPO, 'Cargo.lock'), os.path.join(cdir, 'Cargo.lock'))
+        shutil.copy(P.lockfile(), os.path.join(cdir, 'Cargo.lock'))
         open(os.path.join(cdir, 'src', 'lib.rs'), 'w').write('\n'.join(lines) + '\n')
         rc, msgs, stderr = _cargo_json(P, ws, cdir, ['check', '--lib'])
         errs, other = _error_lines(msgs, 'lib.rs')
